@@ -160,6 +160,16 @@ def check(scn):
         return "kl_distance %r, KL divergence of the corrected leaf distributions is %r" % (kl, exp)
     if abs(part.kl_distance("build", "build2")) > 1e-12:
         return "kl_distance of equal counts is %r, not 0" % part.kl_distance("build", "build2")
+    # the divergence is about the counts as they are now: take it, change the counts under the first id (additively, then from
+    # scratch), take it again
+    part.kl_distance("test", "build")
+    for extra, rs in ((f1, False), (conc, True), (data, False)):
+        part.fill(extra, "test", reset=rs)
+        a, b = np.array(part.leaf_counts("test")), np.array(part.leaf_counts("build"))
+        exp = scipy.stats.entropy((a + 0.5) / (a.sum() + len(a) / 2), (b + 0.5) / (b.sum() + len(b) / 2))
+        got = part.kl_distance("test", "build")
+        if not math.isclose(got, exp, rel_tol=1e-9, abs_tol=1e-12):
+            return "after a further fill(reset=%r) under the first id: kl_distance %r, divergence of the current leaf counts is %r" % (rs, got, exp)
     # plotly frame
     for t1, t2 in (("build", "test"), ("test", "build"), ("build", None), ("other", "test")):
         df = part.to_plotly_dataframe(tree_id1=t1, tree_id2=t2)
